@@ -5,8 +5,9 @@ Import ListNotations.
 Open Scope N_scope.
 
 (* ClientID::new: debug_assert!(value & MASK == 0) *)
+(* ClientID::try_new(...).ok_or(Error::UnexpectedValue) *)
 Definition client_id_new (v : N) (rest : list N) : res N :=
-  if v <? two53 then Ok v rest else Panic P_CLIENT_ID.
+  if v <? two53 then Ok v rest else Err UnexpectedValue.
 
 (* Range<u32>::decode: clock..(clock + len) *)
 Definition decode_range_v1 (bs : list N) : res (N * N) :=
@@ -14,7 +15,7 @@ Definition decode_range_v1 (bs : list N) : res (N * N) :=
   let* (len, r2) := read_var_u32 r1 in
   match add32_checked clock len with
   | Some e => Ok (clock, e) r2
-  | None => Panic P_ADD_U32
+  | None => Err UnexpectedValue
   end.
 
 Fixpoint decode_ranges_loop (fuel : nat) (n : N) (bs : list N) (acc : idrange) : res idrange :=
@@ -25,9 +26,34 @@ Fixpoint decode_ranges_loop (fuel : nat) (n : N) (bs : list N) (acc : idrange) :
     let* (r, rest) := decode_range_v1 bs in
     decode_ranges_loop f (n - 1) rest ((fst r, snd r, tt) :: acc)
   end.
-(* IdRanges<()>::decode: from_raw, no canonicalisation *)
+(* IdRanges<()>::decode: canonical input is taken as is; anything else (empty, touching, overlapping or
+   unsorted ranges) is sorted by start (stable) and rebuilt with insert *)
+Fixpoint ranges_canonical (prev_end : option N) (l : idrange) : bool :=
+  match l with
+  | [] => true
+  | x :: r =>
+    negb (e_end x <=? e_start x)
+    && (match prev_end with Some pe => pe <? e_start x | None => true end)
+    && ranges_canonical (Some (e_end x)) r
+  end.
+Fixpoint insert_by_start (x : entry unit) (l : idrange) : idrange :=
+  match l with
+  | [] => [x]
+  | y :: r => if e_start x <? e_start y then x :: l else y :: insert_by_start x r
+  end.
+Definition sort_by_start (l : idrange) : idrange := fold_left (fun acc x => insert_by_start x acc) l [].
+Definition normalize_ranges (l : idrange) : option idrange :=
+  if ranges_canonical None l then Some l
+  else fold_left (fun acc x => match acc with
+                               | Some a => insert_with ueq umerge a (e_start x) (e_end x) tt
+                               | None => None end) (sort_by_start l) (Some []).
 Definition decode_idrange_v1 (fuel : nat) (bs : list N) : res idrange :=
-  let* (len, rest) := read_var_u32 bs in decode_ranges_loop fuel len rest [].
+  let* (len, rest) := read_var_u32 bs in
+  let* (raw, rest') := decode_ranges_loop fuel len rest [] in
+  match normalize_ranges raw with
+  | Some r => Ok r rest'
+  | None => Panic P_INDEX
+  end.
 
 Fixpoint decode_idset_loop (fuel : nat) (n : N) (bs : list N) (acc : idset) : res idset :=
   if n =? 0 then Ok acc bs else
@@ -35,9 +61,9 @@ Fixpoint decode_idset_loop (fuel : nat) (n : N) (bs : list N) (acc : idset) : re
   | O => Fuel
   | S f =>
     let* (client, r1) := read_var_u64 bs in
-    let* (range, r2) := decode_idrange_v1 f r1 in
-    let* (c, r3) := client_id_new client r2 in
-    decode_idset_loop f (n - 1) r3 (im_set acc c range)
+    let* (c, r1') := client_id_new client r1 in
+    let* (range, r3) := decode_idrange_v1 f r1' in
+    decode_idset_loop f (n - 1) r3 (match range with [] => acc | _ => im_set acc c range end)
   end.
 Definition decode_idset_v1 (fuel : nat) (bs : list N) : res idset :=
   let* (n, rest) := read_var_u32 bs in decode_idset_loop fuel n rest [].
@@ -65,8 +91,8 @@ Fixpoint decode_sv_loop (fuel : nat) (n : N) (bs : list N) (acc : sv) : res sv :
   | O => Fuel
   | S f =>
     let* (client, r1) := read_var_u64 bs in
-    let* (clock, r2) := read_var_u32 r1 in
-    let* (c, r3) := client_id_new client r2 in
+    let* (c, r1') := client_id_new client r1 in
+    let* (clock, r3) := read_var_u32 r1' in
     decode_sv_loop f (n - 1) r3 (sv_set acc c clock)
   end.
 Definition decode_sv_v1 (fuel : nat) (bs : list N) : res sv :=
